@@ -261,9 +261,13 @@ def h_struct(ctx, which, nfields):
         step = max(1, len(names) // nfields)
         name = ctx.pick(names[::step])
         field = st[name]
-        size = real_struct.calcsize(b"<" + field.pack_chars)
-        if field.length > 1:
-            size *= 1
+        # sv: an array field is `length` repetitions of its element.  vcpu:
+        # the per-core accessors transfer one element of the field's pack
+        # type (the string field app_name[16] is a single "16s" element; the
+        # only other array there is the padding __PAD[4], of which the first
+        # word is transferred).
+        whole = b"<" + (field.pack_chars * field.length if which == "sv"
+                        else field.pack_chars)
         op = ctx.pick(["read", "write"])
         if which == "sv":
             base = sv.base
@@ -326,7 +330,7 @@ def h_struct(ctx, which, nfields):
         ctx.prove(sand(cmds[0].arg1 == address) if cmds else False,
                   "struct-field-wrong-address",
                   (fname, cmds[0].arg1 if cmds else None, address))
-        full = real_struct.calcsize(b"<" + field.pack_chars)
+        full = real_struct.calcsize(whole)
         ctx.prove(total == full, "struct-field-wrong-length",
                   (fname, total, full))
         want_p = p if which == "vcpu" else 0
@@ -336,7 +340,7 @@ def h_struct(ctx, which, nfields):
                       "struct-field-wrong-core")
         if op == "read":
             raw = mem.read(address, full)
-            exp = sstruct.unpack(b"<" + field.pack_chars, raw)
+            exp = sstruct.unpack(whole, raw)
             if field.length <= 1 and len(exp) == 1:
                 exp = exp[0]
             if isinstance(val, (tuple, list)):
@@ -349,7 +353,7 @@ def h_struct(ctx, which, nfields):
                           (fname, val, exp))
         else:
             raw = mem.read(address, full)
-            got = sstruct.unpack(b"<" + field.pack_chars, raw)
+            got = sstruct.unpack(whole, raw)
             vals = value if isinstance(value, list) else [value]
             for a, b in zip(got, vals):
                 ctx.prove(a == b, "struct-field-wrong-value", fname)
